@@ -1,6 +1,14 @@
 """Per-profile tier budgets: number of seeded runs and wall-clock cap (budget exhaustion is not an error)."""
 
 TIERS = {
+    "derived": {
+        "quick": {"runs": 480, "budget_s": 80, "min_budget": 150},
+        "thorough": {"runs": 20000, "budget_s": 540, "min_budget": 300},
+    },
+    "crud": {
+        "quick": {"runs": 320, "budget_s": 80, "min_budget": 150},
+        "thorough": {"runs": 8000, "budget_s": 540, "min_budget": 300},
+    },
     "last": {
         "quick": {"runs": 480, "budget_s": 80, "min_budget": 150},
         "thorough": {"runs": 20000, "budget_s": 540, "min_budget": 300},
